@@ -145,7 +145,12 @@ def c17(tier, seed):
 
 def c31(tier, seed):
     q = tier == "quick"
-    return [J(MEM, "VerifK31Assertions", n=2 if q else 3, len=2, timeout_ms=120000 if q else 900000)]
+    return [
+        J(MEM, "VerifK31Assertions", n=2 if q else 3, len=2, timeout_ms=120000 if q else 900000),
+        # through the commands: lists (repeats allowed) over a vocabulary whose members differ only in the expectation,
+        # only in their contextual tuples or only in their context are read back element by element
+        J("pkg/server/commands", "VerifK31bAssertionCommands", n=2 if q else 3, timeout_ms=120000 if q else 900000),
+    ]
 
 
 _TRUST = "trusted: go/ssa, the engine's instruction semantics and library models (listed in the evidence), z3"
